@@ -10,6 +10,8 @@ drives with deriv = 1, and the position-weighted pair, interpreted from clang's 
 All floating-point inputs (AO values, Y_lm tables, grid and atom coordinates, contraction coefficients) are symbolic reals; the
 shell layout is a PySCF molecule with generally contracted s and p shells and a d shell.  Obligations: the documented value of every
 forward output cell, <A x, y> = <x, B y>, outputs are overwritten (not accumulated) where the code says so, inputs unchanged."""
+from fractions import Fraction
+
 import numpy as np
 
 from ..llsym.ccall import ccall
@@ -132,3 +134,49 @@ def h_plain(env, ng=2):
                 for g in range(ng):
                     env.equal("ao_potential_shell%d_contraction%d_m%d_g%d" % (sh, ic, m, g), aob[int(ao_loc[sh]) + ic * (2 * l + 1) + m, g],
                               ylm[int(yl[ia]) + l * l + m, g] * v[int(rf_loc[sh]) + ic, g])
+
+
+# ---------------------------------------------------------------------------------------------------------------------------------
+_YLM_TU = {}
+
+
+def _ylm_unit():
+    """SDMXylm_loop calls the spherical-harmonic recursion of sph_harm.c: one translation unit that includes both sources (the
+    current files of /repo, by absolute path), written to a scratch directory that is removed at exit"""
+    import atexit
+    import os
+    import shutil
+    import tempfile
+    if "path" not in _YLM_TU:
+        repo = os.environ.get("VERIF_REPO", "/repo")
+        d = tempfile.mkdtemp(prefix="verif_tu_")
+        atexit.register(shutil.rmtree, d, True)
+        p = os.path.join(d, "sdmx_ylm_unit.c")
+        with open(p, "w") as f:
+            f.write('#include "%s/ciderpress/lib/mod_cider/sph_harm.c"\n#include "%s/ciderpress/lib/mod_cider/fast_sdmx.c"\n' % (repo, repo))
+        _YLM_TU["path"] = p
+    return _YLM_TU["path"]
+
+
+def h_ylm_loop(env, ng=57):
+    """SDMXylm_loop on 2 atoms x 57 grid points (two blocks of BLKSIZE = 56 per atom, so that two iterations of the work-shared loop
+    use the same atom's recursion buffer): concrete coordinates; the subject is the memory footprint of the iterations (C10 part B),
+    plus the facts that every entry of the table is written and that the l = 0 entry is the constant Y_00"""
+    from ..llsym import bridge
+    from ..llsym.interp import Obj, Ptr
+    natm = 2
+    yl = np.array([0, 4, 5], dtype=np.int32)         # atom 0: l <= 1, atom 1: l = 0 only (the branch that needs no recursion buffer)
+    rng = np.random.default_rng(3)
+    coords = np.ascontiguousarray((rng.integers(-8, 9, size=(3, ng)) / 4.0))
+    atoms = np.ascontiguousarray(np.array([[0.125, 0.0, -0.375], [0.0, 1.125, 0.625]]))
+    if env.sym:
+        out = env.zeros((5, ng))
+        ccall(env, _ylm_unit(), "SDMXylm_loop", [ng, out, coords, yl, atoms.reshape(-1).copy(), natm])
+        written = all(not (getattr(v, "e", None) is None) for v in np.asarray(out, dtype=object).ravel())
+    else:
+        out = np.full((5, ng), np.nan)
+        ccall(env, SDMX_C, "SDMXylm_loop", [ng, out, coords, yl, atoms.reshape(-1).copy(), natm])
+        written = bool(np.all(np.isfinite(out)))
+    env.check("every_table_entry_written", written)
+    for g in (55, 56):
+        env.equal("atom1_l0_entry_is_the_same_constant_in_both_blocks_g%d" % g, out[4, g] + env.const(0), out[4, 0] + env.const(0))
